@@ -4,11 +4,15 @@
 package seq
 
 import (
+	"encoding/gob"
 	"fmt"
 	"hash/fnv"
 	"os"
+	"os/exec"
+	"path/filepath"
 	"sort"
 	"strings"
+	"sync"
 	"time"
 
 	"verif/drv"
@@ -35,6 +39,9 @@ type Run struct {
 	t0                time.Time
 	Deadline          time.Time
 	counters          map[string]int64
+	shardMode         bool
+	shardViol         []shardViolation
+	shardKeys         map[string]int
 }
 
 // New starts a run.
@@ -105,6 +112,16 @@ func (r *Run) TimeUp() bool {
 // Violation reports a failing case. sig is the known-finding signature the case matches ("" if none);
 // key deduplicates reports; replay is written to a replay file.
 func (r *Run) Violation(sig, key, msg string, replay interface{}) {
+	if r.shardMode {
+		if r.shardKeys == nil {
+			r.shardKeys = map[string]int{}
+		}
+		r.shardKeys[sig+"|"+key]++
+		if r.shardKeys[sig+"|"+key] <= 3 {
+			r.shardViol = append(r.shardViol, shardViolation{sig, key, msg, fmt.Sprint(replay)})
+		}
+		return
+	}
 	if text, ok := drv.IsKnown(r.known, r.Prop, sig); ok {
 		r.knownSeen[sig]++
 		if !r.printed["k:"+sig] {
@@ -204,3 +221,130 @@ func (r *Run) Finish() int {
 
 // Exit finishes and exits.
 func (r *Run) Exit() { os.Exit(r.Finish()) }
+
+// ---- sharding over worker processes ----
+
+type shardViolation struct {
+	Sig, Key, Msg string
+	Replay        interface{}
+}
+
+type shardDump struct {
+	Evals, Transitions int64
+	Distinct           []uint64
+	Nontrivial         []uint64
+	Samples            []interface{}
+	Caps               []string
+	Counters           map[string]int64
+	Violations         []shardViolation
+	Extra              map[string]interface{}
+}
+
+// Sharded runs body in n worker processes (re-executions of this binary with VERIF_SHARD=i/n), each
+// handling the cases whose index is i mod n, merges what they covered into r and reports violations
+// from the parent. In a worker process it runs body for that shard and never returns.
+func Sharded(r *Run, n int, body func(r *Run, shard, nshards int)) {
+	if spec := os.Getenv("VERIF_SHARD"); spec != "" {
+		var i, nn int
+		fmt.Sscanf(spec, "%d/%d", &i, &nn)
+		r.shardMode = true
+		body(r, i, nn)
+		d := shardDump{Evals: r.Evals, Transitions: r.Transitions, Samples: r.Samples, Caps: r.Caps, Counters: r.counters, Violations: r.shardViol, Extra: r.Extra}
+		for h := range r.distinct {
+			d.Distinct = append(d.Distinct, h)
+		}
+		for h := range r.nontrivial {
+			d.Nontrivial = append(d.Nontrivial, h)
+		}
+		f, err := os.Create(os.Getenv("VERIF_SHARD_OUT"))
+		if err != nil {
+			fmt.Fprintln(os.Stderr, "shard: ", err)
+			os.Exit(2)
+		}
+		if err := gob.NewEncoder(f).Encode(&d); err != nil {
+			fmt.Fprintln(os.Stderr, "shard: ", err)
+			os.Exit(2)
+		}
+		f.Close()
+		os.Exit(0)
+	}
+	if n <= 1 {
+		body(r, 0, 1)
+		return
+	}
+	tmp := filepath.Join(drv.VerifDir(), ".build", "tmp")
+	os.MkdirAll(tmp, 0o755)
+	type res struct {
+		d   shardDump
+		err error
+	}
+	results := make([]res, n)
+	var wg sync.WaitGroup
+	for i := 0; i < n; i++ {
+		wg.Add(1)
+		go func(i int) {
+			defer wg.Done()
+			out := filepath.Join(tmp, fmt.Sprintf("%s-%d-shard%d.gob", r.Prop, os.Getpid(), i))
+			defer os.Remove(out)
+			cmd := exec.Command(os.Args[0], os.Args[1:]...)
+			cmd.Env = append(os.Environ(), fmt.Sprintf("VERIF_SHARD=%d/%d", i, n), "VERIF_SHARD_OUT="+out, "GOMAXPROCS=2")
+			cmd.Stderr = os.Stderr
+			cmd.Stdout = os.Stderr
+			if err := cmd.Run(); err != nil {
+				results[i].err = fmt.Errorf("shard %d: %v", i, err)
+				return
+			}
+			f, err := os.Open(out)
+			if err != nil {
+				results[i].err = err
+				return
+			}
+			defer f.Close()
+			results[i].err = gob.NewDecoder(f).Decode(&results[i].d)
+		}(i)
+	}
+	wg.Wait()
+	for i := range results {
+		if results[i].err != nil {
+			fmt.Println("INFRA:", results[i].err)
+			os.Exit(2)
+		}
+		d := &results[i].d
+		r.Evals += d.Evals
+		r.Transitions += d.Transitions
+		for _, h := range d.Distinct {
+			r.distinct[h] = struct{}{}
+		}
+		for _, h := range d.Nontrivial {
+			r.nontrivial[h] = struct{}{}
+		}
+		for _, s := range d.Samples {
+			if i < 4 || len(r.Samples) < r.MaxSamples {
+				r.Sample(s)
+			}
+		}
+		for _, c := range d.Caps {
+			r.Cap(c)
+		}
+		for k, v := range d.Counters {
+			r.counters[k] += v
+		}
+		for k, v := range d.Extra {
+			r.Extra[k] = v
+		}
+	}
+	// report violations in a deterministic order
+	var all []shardViolation
+	for i := range results {
+		all = append(all, results[i].d.Violations...)
+	}
+	sort.SliceStable(all, func(a, b int) bool {
+		if all[a].Key != all[b].Key {
+			return all[a].Key < all[b].Key
+		}
+		return len(all[a].Msg) < len(all[b].Msg)
+	})
+	for _, v := range all {
+		r.Violation(v.Sig, v.Key, v.Msg, v.Replay)
+	}
+}
